@@ -296,13 +296,13 @@ impl Property for LabProp {
 
     fn cases(&self, tier: Tier) -> u64 {
         let q = match self.id {
-            "C05" => 3000,
-            "C07" => 7000,
-            _ => 4000,
+            "C05" => 8000,
+            "C07" => 12_000,
+            _ => 10_000,
         };
         match tier {
             Tier::Quick => q,
-            Tier::Thorough => q * 40,
+            Tier::Thorough => q * 20,
         }
     }
 
